@@ -317,4 +317,133 @@ theorem history_independent {h : Heap} {a b : Nat} (s : Sep h a b) (es : List (B
       rw [this.1, this.2, o1, o2]
       exact ⟨rfl, rfl⟩
 
+/-- the shape of a CQM object: its cy cell, its C++ CQM cell -/
+def CShape (h : Heap) (d q v l o : Nat) (cs : List Nat) : Prop :=
+  h.cell d = .cycqm q v l ∧ h.cell q = .cqm o cs ∧ d < h.next ∧ q < h.next ∧ v < h.next ∧ l < h.next ∧
+  d ≠ q ∧ d ≠ v ∧ d ≠ l ∧ q ≠ v ∧ q ≠ l ∧ v ≠ l
+
+/-- the cells of `cyAddConstraintFromModel`'s result, in closed form -/
+theorem cyAdd_cell {h : Heap} {d m q v l o : Nat} {cs : List Nat} (hm : Born 0 h m) (hd : CShape h d q v l o cs)
+    (hdis : ∀ x ∈ [m, cppOf h m, varsOf h m], x ≠ d ∧ x ≠ q ∧ x ≠ v ∧ x ≠ l) (copy : Bool)
+    (remap : List Rat → List Rat) (m' : Merge) (lab : List Nat → List Nat) (a : Nat) :
+    (cyAddConstraintFromModel h d m copy remap m' lab).1.cell a =
+      if a = l then .labels (lab (labelsAt h l)) else if a = q then .cqm o (cs ++ [h.next])
+      else if a = varsOf h m ∧ copy = false then .labels [] else if a = cppOf h m ∧ copy = false then .coeffs []
+      else if a = h.next then .coeffs (remap (coeffsAt h (cppOf h m)))
+      else if a = v then .labels (m'.w (labelsAt h v) (labelsAt h (varsOf h m))) else h.cell a := by
+  obtain ⟨cm, vm, k1, _, k3, _, k5, _, k7, k8, k9, k10⟩ := hm
+  obtain ⟨d1, d2, d3, d4, d5, d6, d7, d8, d9, d10, d11, d12⟩ := hd
+  rw [cppOf_eq k1, varsOf_eq k1] at hdis ⊢
+  obtain ⟨a1, a2, a3, a4⟩ := hdis m (by simp)
+  obtain ⟨b1, b2, b3, b4⟩ := hdis cm (by simp)
+  obtain ⟨c1, c2, c3, c4⟩ := hdis vm (by simp)
+  have n1 : d ≠ h.next := by omega
+  have n2 : q ≠ h.next := by omega
+  have n3 : v ≠ h.next := by omega
+  have n4 : l ≠ h.next := by omega
+  have n5 : m ≠ h.next := by omega
+  have n6 : cm ≠ h.next := by omega
+  have n7 : vm ≠ h.next := by omega
+  have := d7.symm; have := d8.symm; have := d9.symm; have := d10.symm; have := d11.symm; have := d12.symm
+  have := a1.symm; have := a2.symm; have := a3.symm; have := a4.symm
+  have := b1.symm; have := b2.symm; have := b3.symm; have := b4.symm
+  have := c1.symm; have := c2.symm; have := c3.symm; have := c4.symm
+  have := k8.symm; have := k9.symm; have := k10.symm
+  have := n1.symm; have := n2.symm; have := n3.symm; have := n4.symm; have := n5.symm; have := n6.symm; have := n7.symm
+  cases copy
+  · simp only [cyAddConstraintFromModel, setConstraints, clear, mutate, Bool.false_eq_true, if_false]
+    simp [store_cell, alloc_cell, cppOf, varsOf, clabelsOf, objectiveOf, constraintsOf, coeffsAt, labelsAt, *]
+    rfl
+  · simp only [cyAddConstraintFromModel, setConstraints, if_true]
+    simp [store_cell, alloc_cell, cppOf, varsOf, clabelsOf, objectiveOf, constraintsOf, coeffsAt, labelsAt, *]
+    rfl
+
+/-- adding a model to a CQM, as coded: the new constraint is a NEW cell holding the (re-indexed) contents of the model; the cells
+    written are the CQM's own `Variables`, constraint vector and constraint labels — and, only without `copy`, the two cells of the
+    source model, which is left empty (documented).  With `copy=True` the source model reads exactly as before. -/
+theorem cyAdd_spec {h : Heap} {d m q v l o : Nat} {cs : List Nat} (hm : Born 0 h m) (hd : CShape h d q v l o cs)
+    (hdis : ∀ x ∈ [m, cppOf h m, varsOf h m], x ≠ d ∧ x ≠ q ∧ x ≠ v ∧ x ≠ l) (copy : Bool)
+    (remap : List Rat → List Rat) (m' : Merge) (lab : List Nat → List Nat) :
+    (cyAddConstraintFromModel h d m copy remap m' lab).2 = h.next ∧
+    coeffsAt (cyAddConstraintFromModel h d m copy remap m' lab).1 h.next = remap (obs h m).1 ∧
+    constraintsOf (cyAddConstraintFromModel h d m copy remap m' lab).1 (cppOf (cyAddConstraintFromModel h d m copy remap m' lab).1 d) = cs ++ [h.next] ∧
+    obs (cyAddConstraintFromModel h d m copy remap m' lab).1 m = (if copy then obs h m else ([], [])) ∧
+    (∀ a, a < h.next → a ≠ v → a ≠ q → a ≠ l → (copy = false → a ≠ cppOf h m ∧ a ≠ varsOf h m) →
+      (cyAddConstraintFromModel h d m copy remap m' lab).1.cell a = h.cell a) := by
+  have hcell := cyAdd_cell hm hd hdis copy remap m' lab
+  obtain ⟨cm, vm, k1, _, k3, _, k5, _, k7, k8, k9, k10⟩ := hm
+  obtain ⟨d1, d2, d3, d4, d5, d6, d7, d8, d9, d10, d11, d12⟩ := hd
+  rw [cppOf_eq k1, varsOf_eq k1] at hdis hcell ⊢
+  obtain ⟨a1, a2, a3, a4⟩ := hdis m (by simp)
+  obtain ⟨b1, b2, b3, b4⟩ := hdis cm (by simp)
+  obtain ⟨c1, c2, c3, c4⟩ := hdis vm (by simp)
+  have ed : (cyAddConstraintFromModel h d m copy remap m' lab).1.cell d = .cycqm q v l := by
+    rw [hcell, if_neg d9, if_neg d7, if_neg (fun hh => c1 hh.1.symm), if_neg (fun hh => b1 hh.1.symm), if_neg (by omega), if_neg d8]; exact d1
+  have em : (cyAddConstraintFromModel h d m copy remap m' lab).1.cell m = .cy cm vm := by
+    rw [hcell, if_neg a4, if_neg a2, if_neg (fun hh => k9 hh.1.symm), if_neg (fun hh => k8 hh.1.symm), if_neg (by omega), if_neg a3]; exact k1
+  refine ⟨rfl, ?_, ?_, ?_, ?_⟩
+  · simp only [coeffsAt, hcell, obs, cppOf_eq k1]
+    rw [if_neg (by omega), if_neg (by omega), if_neg (fun hh => by omega), if_neg (fun hh => by omega)]
+    simp
+  · have eq' : cppOf (cyAddConstraintFromModel h d m copy remap m' lab).1 d = q := by simp [cppOf, ed]
+    rw [eq']
+    simp only [constraintsOf, hcell]
+    rw [if_neg d11]
+    simp
+  · simp only [obs, cppOf_eq em, varsOf_eq em, cppOf_eq k1, varsOf_eq k1, coeffsAt, labelsAt, hcell]
+    cases copy
+    · rw [if_neg b4, if_neg b2, if_neg (fun hh => k10 hh.1), if_pos ⟨trivial, rfl⟩, if_neg c4, if_neg c2, if_pos ⟨trivial, rfl⟩]; rfl
+    · rw [if_neg b4, if_neg b2, if_neg (fun hh => by simp at hh), if_neg (fun hh => by simp at hh), if_neg (by omega), if_neg b3,
+        if_neg c4, if_neg c2, if_neg (fun hh => by simp at hh), if_neg (fun hh => by simp at hh), if_neg (by omega), if_neg c3]; rfl
+  · intro a ha hv hq hl hc
+    rw [hcell, if_neg hl, if_neg hq, if_neg (fun hh => (hc hh.2).2 hh.1), if_neg (fun hh => (hc hh.2).1 hh.1), if_neg (by omega), if_neg hv]
+
+/-- `set_objective(model)` as coded (array-backed model): the contents are *copied into* the CQM's own objective cell; the only other cell
+    written is the CQM's `Variables`; the source model reads as before and shares nothing with the CQM -/
+theorem setObjective_spec {h : Heap} {d m q v l o : Nat} {cs : List Nat} (hm : Born 0 h m) (hd : CShape h d q v l o cs)
+    (hdis : ∀ x ∈ [m, cppOf h m, varsOf h m], x ≠ d ∧ x ≠ q ∧ x ≠ v ∧ x ≠ l ∧ x ≠ o) (ho : o ≠ d ∧ o ≠ q ∧ o ≠ v)
+    (remap : List Rat → List Rat) (m' : Merge) :
+    objectiveOf (setObjective h d m false remap m') (cppOf (setObjective h d m false remap m') d) = o ∧
+    coeffsAt (setObjective h d m false remap m') o = remap (obs h m).1 ∧
+    obs (setObjective h d m false remap m') m = obs h m ∧
+    (∀ a, a ≠ o → a ≠ v → (setObjective h d m false remap m').cell a = h.cell a) := by
+  obtain ⟨cm, vm, k1, _, k3, _, k5, _, k7, k8, k9, k10⟩ := hm
+  obtain ⟨d1, d2, d3, d4, d5, d6, d7, d8, d9, d10, d11, d12⟩ := hd
+  rw [cppOf_eq k1, varsOf_eq k1] at hdis
+  obtain ⟨a1, a2, a3, a4, a5⟩ := hdis m (by simp)
+  obtain ⟨b1, b2, b3, b4, b5⟩ := hdis cm (by simp)
+  obtain ⟨c1, c2, c3, c4, c5⟩ := hdis vm (by simp)
+  obtain ⟨o1, o2, o3⟩ := ho
+  have := d7.symm; have := d8.symm; have := d10.symm
+  have := a1.symm; have := a2.symm; have := a3.symm; have := a5.symm
+  have := b1.symm; have := b2.symm; have := b3.symm; have := b5.symm
+  have := c1.symm; have := c2.symm; have := c3.symm; have := c5.symm
+  have := o1.symm; have := o2.symm; have := o3.symm
+  have := k8.symm; have := k9.symm; have := k10.symm
+  have hcell : ∀ a, (setObjective h d m false remap m').cell a =
+      if a = o then .coeffs (remap (coeffsAt h cm)) else if a = v then .labels (m'.w (labelsAt h v) (labelsAt h vm)) else h.cell a := by
+    intro a
+    simp only [setObjective, Bool.false_eq_true, if_false]
+    simp [store_cell, cppOf, varsOf, objectiveOf, coeffsAt, labelsAt, *]
+  have ed : (setObjective h d m false remap m').cell d = .cycqm q v l := by rw [hcell, if_neg o1.symm, if_neg d8]; exact d1
+  have eq' : (setObjective h d m false remap m').cell q = .cqm o cs := by rw [hcell, if_neg o2.symm, if_neg d10]; exact d2
+  have em : (setObjective h d m false remap m').cell m = .cy cm vm := by rw [hcell, if_neg a5, if_neg a3]; exact k1
+  refine ⟨by simp [cppOf, objectiveOf, ed, eq'], ?_, ?_, fun a h1 h2 => by rw [hcell, if_neg h1, if_neg h2]⟩
+  · simp [coeffsAt, hcell, obs, cppOf, k1]
+  · simp only [obs, cppOf_eq em, varsOf_eq em, cppOf_eq k1, varsOf_eq k1, coeffsAt, labelsAt, hcell]
+    rw [if_neg b5, if_neg b3, if_neg c5, if_neg c3]
+
+
+/-- any history of in-place edits of a model writes only the model's own two cells: every other cell of the heap — every cell of a CQM
+    the model was added to in particular — is the same afterwards -/
+theorem edits_write_own_cells {h : Heap} {m : Nat} (hm : Born 0 h m) (es : List Edit) (a : Nat) (h1 : a ≠ cppOf h m) (h2 : a ≠ varsOf h m) :
+    (es.foldl (fun acc e => e.run acc m) h).cell a = h.cell a := by
+  induction es generalizing h with
+  | nil => rfl
+  | cons e t ih =>
+    obtain ⟨_, m2, _, m4⟩ := mutate_spec hm e.fg.f e.fg.g
+    obtain ⟨r1, r2⟩ := mutate_refs hm e.fg.f e.fg.g
+    simp only [List.foldl_cons]
+    exact (ih m2 (by rw [r1]; exact h1) (by rw [r2]; exact h2)).trans (m4 a h1 h2)
+
 end MHeap
